@@ -397,6 +397,62 @@ def _mk_lm(case):
     return MixableShallowFusionLanguageModel(first, second, lm["fuse"]["beta2"])
 
 
+_SLM = None
+
+
+def _mk_script_lm(case):
+    """TorchScript-compatible twin of HashLM (the library's tests script CTCPrefixSearch only with a scripted LM)"""
+    global _SLM
+    if _SLM is None:
+        from typing import Dict, Tuple
+        from pydrobert.torch.modules import MixableSequentialLanguageModel
+
+        class SHashLM(MixableSequentialLanguageModel):
+            def __init__(self, V: int, M: int, a: int, h0: int, table: torch.Tensor, raw: bool):
+                super().__init__(V)
+                self.M, self.a, self.h0, self.raw = M, a, h0, raw
+                self.register_buffer("table", table)
+
+            @torch.jit.export
+            def update_input(self, prev: Dict[str, torch.Tensor], hist: torch.Tensor) -> Dict[str, torch.Tensor]:
+                if len(prev):
+                    return prev
+                return {"h": torch.full((hist.size(1),), self.h0, dtype=torch.long)}
+
+            @torch.jit.export
+            def extract_by_src(self, prev: Dict[str, torch.Tensor], src: torch.Tensor) -> Dict[str, torch.Tensor]:
+                return {"h": prev["h"].index_select(0, src)}
+
+            @torch.jit.export
+            def mix_by_mask(self, prev_true: Dict[str, torch.Tensor], prev_false: Dict[str, torch.Tensor],
+                            mask: torch.Tensor) -> Dict[str, torch.Tensor]:
+                return {"h": torch.where(mask, prev_true["h"], prev_false["h"])}
+
+            @torch.jit.export
+            def calc_idx_log_probs(self, hist: torch.Tensor, prev: Dict[str, torch.Tensor],
+                                   idx: torch.Tensor) -> Tuple[torch.Tensor, Dict[str, torch.Tensor]]:
+                B = hist.size(1)
+                if idx.dim() == 0:
+                    idx = idx.expand(B)
+                if hist.size(0) == 0:
+                    x = torch.full((B,), self.vocab_size, dtype=torch.long)
+                else:
+                    x = hist.gather(0, (idx - 1).clamp(min=0).unsqueeze(0)).squeeze(0)
+                    x = torch.where(idx == 0, torch.full_like(x, self.vocab_size), x)
+                h1 = (self.a * prev["h"] + x + 1) % self.M
+                if self.raw:
+                    return self.table[h1], {"h": h1}
+                return self.table[h1].log_softmax(-1), {"h": h1}
+
+        _SLM = SHashLM
+    lm = case["lm"]
+    return _SLM(case["V"], lm["M"], lm["a"], lm["h0"], torch.tensor(lm["table"], dtype=_dt(case)), bool(lm.get("raw")))
+
+
+def _scriptable(case):
+    return case["fusion"] != "none" and bool(case.get("lm")) and not case["lm"].get("fuse")
+
+
 def _lm_table(case):
     """what the fused LM returns per hash state (before the module's own normalisation), computed with the
     same torch operations in the same order"""
@@ -464,8 +520,8 @@ def _search_inputs(case, via=None):
 def run_search(case, record=True, via=None):
     """Returns {'elems': [ {y (valid parts), lens, probs, choices} per batch element ], 'S': ..} or {'exc':..}.
     via = another entry point / call form / layout / call history for the same logical input (no step recording:
-    the answer is compared with the plain call's answer): 'script' (torch.jit.script(module), no LM: the library
-    does not script fused searches), 'kw' (keyword arguments), 'views' (non-contiguous logits / lens), 'i32lens',
+    the answer is compared with the plain call's answer): 'script' (torch.jit.script(module) over a scripted LM; the library scripts no search without LM and
+    none over its shallow-fusion LM), 'kw' (keyword arguments), 'views' (non-contiguous logits / lens), 'i32lens',
     'reuse' (one module object first used on another input, then twice on this one)."""
     import pydrobert.torch._decoding as dec
     from pydrobert.torch.modules import CTCPrefixSearch
@@ -474,6 +530,8 @@ def run_search(case, record=True, via=None):
     logits, lens = _search_inputs(case, via)
     fused = case["fusion"] != "none"
     lm = _mk_lm(case) if (fused and case.get("lm")) else None
+    if via == "script":
+        lm = _mk_script_lm(case)
     init = _initial_state(case)
     calls = []
     orig = dec.ctc_prefix_search_advance
@@ -549,7 +607,7 @@ def via_check(case, out):
     via = case.get("via")
     if via is None or "exc" in out:
         return None
-    if via == "script" and case["fusion"] != "none":
+    if via == "script" and not _scriptable(case):
         return None
     o2 = run_search(case, via=via)
     if "exc" in o2:
@@ -819,7 +877,7 @@ def gen_search_robust(rng):
                 lm["h0s"] = [rng.randrange(lm["M"]) for _ in range(N)]
         if rng.random() < 0.15:
             case["dtype"] = "float32"
-        vias = [v for v in SEARCH_VIAS if not (v == "script" and case["fusion"] != "none")
+        vias = [v for v in SEARCH_VIAS if not (v == "script" and not _scriptable(case))
                 and not (v == "i32lens" and case["lens"] is None)]
         if rng.random() < 0.6:
             case["via"], case["form"] = rng.choice(vias), rng.randrange(12)
